@@ -65,12 +65,119 @@ class Raised(object):
         return "Raised(%s: %s)" % (self.name, self.message)
 
 
+class ResultNotReproducible(Exception):
+    """Reported (as a Raised value) when the same call on the same arguments gives a different result after the
+    caller overwrote its own copy of the first result - i.e. the library handed out shared or cached state."""
+
+
+def _equal(a, b):
+    import numpy
+    if isinstance(a, numpy.ndarray) or isinstance(b, numpy.ndarray):
+        return isinstance(a, numpy.ndarray) and isinstance(b, numpy.ndarray) and a.shape == b.shape \
+            and a.dtype == b.dtype and bool(numpy.array_equal(a, b))
+    if isinstance(a, dict) and isinstance(b, dict):
+        return list(a.keys()) == list(b.keys()) and all(_equal(a[k], b[k]) for k in a)
+    if isinstance(a, (list, tuple)) and isinstance(b, (list, tuple)):
+        return type(a) is type(b) and len(a) == len(b) and all(_equal(x, y) for x, y in zip(a, b))
+    if isinstance(a, float) and isinstance(b, float):
+        return a == b or (a != a and b != b)
+    return type(a) is type(b) and a == b
+
+
+def _arrays_in(values):
+    import numpy
+    found, stack = [], list(values)
+    while stack:
+        item = stack.pop()
+        if isinstance(item, numpy.ndarray):
+            found.append(item)
+        elif isinstance(item, dict):
+            stack.extend(item.values())
+        elif isinstance(item, (list, tuple)):
+            stack.extend(item)
+    return found
+
+
+def scribble(result, arguments):
+    """Overwrite every mutable part of a result the caller owns (never objects that alias an argument)."""
+    import numpy
+    shared = _arrays_in(arguments)
+    containers = [a for a in arguments if isinstance(a, (dict, list))]
+    stack = [result]
+    while stack:
+        item = stack.pop()
+        if isinstance(item, numpy.ndarray):
+            if item.flags.writeable and item.size and not any(numpy.shares_memory(item, s) for s in shared):
+                item[...] = 3 if item.dtype.kind in "iuf" else (not bool(item.flat[0]))
+        elif isinstance(item, dict):
+            if not any(item is c for c in containers):
+                stack.extend(item.values())
+                item.clear()
+        elif isinstance(item, list):
+            if not any(item is c for c in containers):
+                stack.extend(item)
+                del item[:]
+        elif isinstance(item, tuple):
+            stack.extend(item)
+
+
+_HELD = {}  # function name -> (live result, private copy): the latest probed result of every function, across cases
+
+
+def _check_held():
+    """A result handed out earlier must not change because of later library calls (shared output buffers)."""
+    for description, (live, kept) in list(_HELD.items()):
+        if not _equal(live, kept):
+            _HELD.clear()
+            return ("a result returned earlier by %s changed after later library calls (the library reuses or shares "
+                    "its output objects): was %s, now %s" % (description, str(kept)[:60], str(live)[:60]))
+    return None
+
+
 def lib_call(function, *args, **kwargs):
-    """Call library code; library exceptions become a Raised value (BaseExceptions of the harness pass through)."""
+    """Call library code with stdout captured; library exceptions become a Raised value (BaseExceptions of the
+    harness pass through).  Unless _twice=False, a returning call is repeated on the same argument objects after the
+    caller-owned first result has been overwritten; a differing second result is reported as
+    Raised(ResultNotReproducible) - every call must give the right answer, not only the first one."""
+    import copy
+    twice = kwargs.pop("_twice", True)
+    hold = kwargs.pop("_hold", True)
+    sink = io.StringIO()
+    old = sys.stdout
+    sys.stdout = sink
     try:
-        return function(*args, **kwargs)
-    except Exception as exc:  # noqa - the library's contract is judged by the caller
-        return Raised(exc)
+        try:
+            first = function(*args, **kwargs)
+        except Exception as exc:  # noqa - the library's contract is judged by the caller
+            return Raised(exc)
+        import numpy
+        if not twice or not isinstance(first, (numpy.ndarray, list, dict, tuple)):
+            return first
+        try:
+            kept = copy.deepcopy(first)
+        except Exception:  # noqa - not copyable: no probe
+            return first
+        arguments = list(args) + list(kwargs.values())
+        scribble(first, arguments)
+        try:
+            second = function(*args, **kwargs)
+        except Exception as exc:  # noqa
+            return Raised(ResultNotReproducible("second identical call raised %s: %s" % (type(exc).__name__, exc)))
+        if not _equal(kept, second):
+            return Raised(ResultNotReproducible(
+                "the same call on the same arguments returned a different result after the caller overwrote its "
+                "copy of the first result (first %s, then %s)" % (str(kept)[:70], str(second)[:70])))
+        changed = _check_held()
+        if changed:
+            return Raised(ResultNotReproducible(changed))
+        shared = _arrays_in(arguments)
+        aliases = any(numpy.shares_memory(part, arg) for part in _arrays_in([second]) for arg in shared) \
+            or any(second is arg for arg in arguments)
+        if hold and not aliases:
+            _HELD[getattr(function, "__name__", "call")] = (second, kept)
+        return second
+    finally:
+        sys.stdout = old
 
 
 @contextlib.contextmanager
